@@ -22,6 +22,16 @@ theorem cmpDesc_law : CmpLaw (fun _ => True) Eq cmpDesc := by
   refine ⟨signDesc, fun _ _ _ _ => rfl, ?_, ?_, ?_⟩ <;> intros <;> simp only [signDesc] at * <;>
     (repeat' split) <;> omega
 
+/-- comparators returning the difference instead of its sign are lawful too -/
+theorem cmpSub_law : CmpLaw (fun _ => True) Eq cmpSub := by
+  refine ⟨fun a b => a - b, fun _ _ _ _ => rfl, ?_, ?_, ?_⟩ <;> intros <;> simp only at * <;> omega
+
+theorem cmpSub7_law : CmpLaw (fun _ => True) Eq cmpSub7 := by
+  refine ⟨fun a b => 7 * (a - b), fun _ _ _ _ => rfl, ?_, ?_, ?_⟩ <;> intros <;> simp only at * <;> omega
+
+theorem cmpRevSub_law : CmpLaw (fun _ => True) Eq cmpRevSub := by
+  refine ⟨fun a b => b - a, fun _ _ _ _ => rfl, ?_, ?_, ?_⟩ <;> intros <;> simp only at * <;> omega
+
 /-- the identity "shuffle" -/
 def idShuffle : Shuffle Unit := fun n g => (List.range n, g)
 
@@ -94,6 +104,13 @@ def exUnordered : MSet Int := ⟨.unordered eqI, [4, 1, 3]⟩
 def exStable : MSet Int := ⟨.stable eqI, [5, 1, 4]⟩
 def exAsc : MSet Int := ⟨.sorted cmpAsc, [1, 3, 5]⟩
 def exDesc : MSet Int := ⟨.sorted cmpDesc, [6, 3, 2]⟩
+
+def exSub7 : MSet Int := ⟨.sorted cmpSub7, [-2, 0, 9]⟩
+theorem exSub7_wf : WF0 exSub7 := by
+  refine wf0_sorted cmpSub7_law ?_
+  refine List.Pairwise.imp (R := (· < ·)) ?_ (by simp)
+  intro a b hab
+  exact ⟨7 * (a - b), rfl, by omega⟩
 
 theorem exUnordered_wf : WF0 exUnordered := wf0_unordered eqI_law (by decide)
 theorem exStable_wf : WF0 exStable := wf0_stable eqI_law (by decide)
